@@ -146,7 +146,10 @@ func (cs *ConsensusState) catchupReplay(csHeight int64) error {
 		// it will attempt to eg double sign but we can just ignore it
 		// since the votes will be replayed and we'll get to the next step
 		if err := cs.readReplayMessage([]byte(line), nil); err != nil {
-			return err
+			// A record that cannot be read is one that was being written when the node went
+			// down: its input was never handled. The records after it are intact.
+			log.Warn("Replay: skipping unreadable record", zap.String("error", err.Error()))
+			continue
 		}
 	}
 	log.Info("Replay: Done")
